@@ -4,3 +4,4 @@ From IMB Require Import Mgr.SafeData Mgr.SafeDataInst.
 Set Printing Width 200.
 Set Printing Depth 100000.
 Eval vm_compute in claimed_clean.
+Eval vm_compute in claimed_junk.
